@@ -1614,6 +1614,7 @@ class TCPSocketListener(abc.SocketListener):
         transport, protocol = await self._loop.connect_accepted_socket(
             StreamProtocol, client_sock
         )
+        transport.pause_reading()
         return SocketStream(transport, protocol)
 
     async def aclose(self) -> None:
@@ -3065,6 +3066,7 @@ class AsyncIOBackend(AsyncBackend):
         transport, protocol = await get_running_loop().create_connection(
             StreamProtocol, sock=sock
         )
+        transport.pause_reading()
         return SocketStream(transport, protocol)
 
     @classmethod
